@@ -1195,7 +1195,7 @@ func c13Run(e *core.Env) {
 						e.Count("distinct_nontrivial")
 					}
 					e.Distinct(imp.Name + "\n" + out.Stdout)
-					if e.CaseNo()%5003 == 0 {
+					if len(rows) >= 2 && e.CaseNo()%5003 == 0 {
 						e.Sample(map[string]any{"importer": imp.Name, "variant": v, "rows": cs.Rows, "expected": cs.RowWants})
 					}
 					if e.CaseNo()%499 == 0 {
